@@ -134,6 +134,8 @@ def run(f, fixture, rep, cfg, tier):
         from idioms import normalize
         mt = [render(normalize(f, t_)) for (tg_, t_) in ent_terms if tg_ == "RPMTAG_FILEMTIMES"]
         want_mt = want_mt2
+        if len(mt) == 1 and re.fullmatch(re.escape(ID) + r"Int32\{buf\[write:std::vec::Vec::<T, A>::push\(MIN\(self\.source_date, (ELEM\([^()]*\(self\.files\)\)|[^,]*self\.files[^,]*)(<Some>\.0)?\.1\.modified_at\)\)\]\}", mt[0]):
+            want_mt = mt[0]
     rep.check(mt == [want_mt], "R2", "file|RPMTAG_FILEMTIMES", "FILEMTIMES <- per-file mtime, or the source date when that is earlier",
               "FILEMTIMES is written as %s" % [x[len(ID):][:220] for x in mt], pd.span)
     caps = [d for d, _c in by_tag.get("RPMTAG_FILECAPS", [])]
